@@ -11,6 +11,8 @@ import (
 	"strings"
 
 	"golang.org/x/tools/go/ssa"
+	"math/big"
+	"strconv"
 )
 
 // Rules added while deepening (after wave 2).
@@ -2406,6 +2408,16 @@ func extraC07RecoveryTarget(c *Ctx, r *Report) {
 			}
 			if cb == nil {
 				return
+			}
+			// a method value (`RecoveryCallbackFunc(s.rediscoverRecoveredEndpoint)`) is a synthetic wrapper around the method
+			if strings.HasSuffix(cb.Name(), "$bound") || strings.Contains(cb.Synthetic, "bound method") {
+				eachInstr(cb, func(i2 ssa.Instruction) {
+					if c2 := getCall(i2); c2 != nil {
+						if sc := c2.StaticCallee(); sc != nil && sc.Blocks != nil && c.inRepo(sc) {
+							cb = sc
+						}
+					}
+				})
 			}
 			n++
 			key := fname(cb) + ":rediscover-recovered-endpoint"
@@ -6168,6 +6180,40 @@ func extraC06RoutableHasWeight(c *Ctx, r *Report) {
 		n++
 		key := "status:" + name + ":routable-has-weight"
 		wv := evalOnConstString(gw, val)
+		// the weights may sit in a package-level table (`return trafficWeights[s]`, a missing key weighs 0)
+		if lk, isLk := wv.(*ssa.Lookup); isLk && lk.Index == ssa.Value(gw.Params[0]) {
+			if rows, okT := c.globalTable(globalBehind(lk.X)); okT {
+				w, exact := 0.0, true
+				for _, row := range rows {
+					if !row.HasKey {
+						exact = false
+					}
+					if row.HasKey && row.Key == val {
+						if len(row.Leaves) != 1 {
+							exact = false
+							continue
+						}
+						f, err := strconv.ParseFloat(row.Leaves[0], 64)
+						if err != nil {
+							if rat, ok2 := new(big.Rat).SetString(row.Leaves[0]); ok2 {
+								f, _ = rat.Float64()
+							} else {
+								exact = false
+							}
+						}
+						w = f
+					}
+				}
+				if exact {
+					if w > 0 {
+						r.OK("C06-R12", key, gw.Pos(), fmt.Sprintf("routable, weight %v (table)", w))
+					} else {
+						r.Bad("C06-R12", key, gw.Pos(), "a routable status has traffic weight 0: an endpoint in that state joins the top tier but is never drawn while a weighted peer is in it")
+					}
+					continue
+				}
+			}
+		}
 		wk, okW := wv.(*ssa.Const)
 		if wv == nil || !okW || wk.Value == nil {
 			r.Undecided("C06-R12", key, gw.Pos(), "GetTrafficWeight could not be evaluated for this constant")
